@@ -173,3 +173,23 @@ def const_assigned_in(fn, blocks, local=0):
                 if op["k"] == "const" and "v" in op:
                     vals.append(int(op["v"]))
     return vals
+
+
+def self_rooted(fn, place, ex=None, at=None):
+    """does the place denote (a projection of) the function's `self` argument?  True for local 1 and for locals of inlined
+    callees that were bound to it."""
+    l = place["l"]
+    if l == 1:
+        return True
+    if ex is None:
+        ex = Ex(fn)
+    if at is None:
+        # find any point: use the definition of the local (arg binding of an inlined callee)
+        for bi, si, s in fn.stmts():
+            if s["k"] == "assign" and s["place"]["l"] == l and not s["place"]["p"]:
+                at = (bi, si + 1)
+                break
+    if at is None:
+        return False
+    e = ex.local(l, at)
+    return e == ("arg", 1, fn.local_name(1)) or (e[0] == "arg" and e[1] == 1)
